@@ -61,13 +61,13 @@ theorem caterStep_li (lens : List Rat) (i : Nat) (s s' : St)
 
 /-- the frame of the insertion generators reads lengths 0 (and 1) at the start and, at tip `i`, the
     three lengths from `base + 3 (i-2)` on -/
-theorem insertionGen_congr (step step' : Nat → St → Res St) (n : Int) (rooted : Bool) (lens lens' : List Rat)
+theorem insertionGenDoc2_congr (step step' : Nat → St → Res St) (n : Int) (rooted : Bool) (lens lens' : List Rat)
     (hl : ∀ j, j < (if n < 2 || (n < 3 && rooted) then 0 else baseLens rooted + 3 * (n.toNat - 2)) →
       lenAt lens' j = lenAt lens j)
     (hstep : ∀ i s, 2 ≤ i → i < n.toNat → s.li = baseLens rooted + 3 * (i - 2) → step i s = step' i s)
     (hli : ∀ i s s', step i s = .ok s' → s'.li = s.li + 3) :
-    insertionGen step n rooted lens = insertionGen step' n rooted lens' := by
-  unfold insertionGen
+    insertionGenDoc2 step n rooted lens = insertionGenDoc2 step' n rooted lens' := by
+  unfold insertionGenDoc2
   by_cases h2 : n < 2
   · simp [h2]
   · by_cases h3 : (n < 3 && rooted) = true
@@ -94,6 +94,21 @@ theorem insertionGen_congr (step step' : Nat → St → Res St) (n : Int) (roote
         · cases rooted <;> simp [initSt, initTree, baseLens]
       simp only [h2, h3, if_false, Bool.false_eq_true]
       rw [hiter, hinit]
+
+theorem insertionGen_congr (step step' : Nat → St → Res St) (n : Int) (rooted : Bool) (lens lens' : List Rat)
+    (hl : ∀ j, j < (if n < 3 then 0 else baseLens rooted + 3 * (n.toNat - 2)) → lenAt lens' j = lenAt lens j)
+    (hstep : ∀ i s, 2 ≤ i → i < n.toNat → s.li = baseLens rooted + 3 * (i - 2) → step i s = step' i s)
+    (hli : ∀ i s s', step i s = .ok s' → s'.li = s.li + 3) :
+    insertionGen step n rooted lens = insertionGen step' n rooted lens' := by
+  unfold insertionGen
+  by_cases h3 : n < 3
+  · simp [h3]
+  · rw [if_neg h3, if_neg h3]
+    apply insertionGenDoc2_congr step step' n rooted lens lens' ?_ hstep hli
+    intro j hj
+    apply hl j
+    have h2 : ¬ n < 2 := by omega
+    simpa [h2, h3] using hj
 
 theorem uniformStep_congr (ints ints' : List Nat) (lens lens' : List Rat) (i : Nat) (s : St)
     (hi : ints'.getD (i - 2) 0 = ints.getD (i - 2) 0)
